@@ -8,6 +8,7 @@ package badger
 import (
 	"encoding/hex"
 	"fmt"
+	"sort"
 	"sync"
 
 	"github.com/dustin/go-humanize"
@@ -202,9 +203,22 @@ func (sw *StreamWriter) Write(buf *z.Buffer) error {
 		return err
 	}
 
+	// Under simulation the streams are handled in id order (map order otherwise).
+	streamIDs := make([]uint32, 0, len(streamReqs))
+	for id := range streamReqs {
+		streamIDs = append(streamIDs, id)
+	}
+	closedIDs := make([]uint32, 0, len(closedStreams))
+	for id := range closedStreams {
+		closedIDs = append(closedIDs, id)
+	}
+	if vhook.On {
+		sort.Slice(streamIDs, func(i, j int) bool { return streamIDs[i] < streamIDs[j] })
+		sort.Slice(closedIDs, func(i, j int) bool { return closedIDs[i] < closedIDs[j] })
+	}
 	all := make([]*request, 0, len(streamReqs))
-	for _, req := range streamReqs {
-		all = append(all, req)
+	for _, id := range streamIDs {
+		all = append(all, streamReqs[id])
 	}
 
 	vhook.WaitLock("sw.writeLock", func() bool {
@@ -224,7 +238,8 @@ func (sw *StreamWriter) Write(buf *z.Buffer) error {
 		return err
 	}
 
-	for streamID, req := range streamReqs {
+	for _, streamID := range streamIDs {
+		req := streamReqs[streamID]
 		writer, ok := sw.writers[streamID]
 		if !ok {
 			var err error
@@ -239,12 +254,13 @@ func (sw *StreamWriter) Write(buf *z.Buffer) error {
 			panic(fmt.Sprintf("write performed on closed stream: %d", streamID))
 		}
 
+		vhook.PointID("sw.send", uint64(streamID)+1)
 		writer.reqCh <- req
 	}
 
 	// Now we can close any streams if required. We will make writer for
 	// the closed streams as nil.
-	for streamId := range closedStreams {
+	for _, streamId := range closedIDs {
 		writer, ok := sw.writers[streamId]
 		if !ok {
 			sw.db.opt.Warningf("Trying to close stream: %d, but no sorted "+
@@ -277,13 +293,14 @@ func (sw *StreamWriter) Flush() error {
 
 	defer sw.done()
 
-	for _, writer := range sw.writers {
-		if writer != nil {
+	for _, id := range sw.writerIDs() {
+		if writer := sw.writers[id]; writer != nil {
 			writer.closer.SignalAndWait()
 		}
 	}
 
-	for _, writer := range sw.writers {
+	for _, id := range sw.writerIDs() {
+		writer := sw.writers[id]
 		if writer == nil {
 			continue
 		}
@@ -328,6 +345,18 @@ func (sw *StreamWriter) Flush() error {
 		return err
 	}
 	return sw.db.lc.validate()
+}
+
+// writerIDs lists the stream ids (in id order under simulation, in map order otherwise).
+func (sw *StreamWriter) writerIDs() []uint32 {
+	ids := make([]uint32, 0, len(sw.writers))
+	for id := range sw.writers {
+		ids = append(ids, id)
+	}
+	if vhook.On {
+		sort.Slice(ids, func(i, j int) bool { return ids[i] < ids[j] })
+	}
+	return ids
 }
 
 // Cancel signals all goroutines to exit. Calling defer sw.Cancel() immediately after creating a new StreamWriter
